@@ -23,7 +23,9 @@ def run(ctx):
     maxd = 0.0
     for i in range(nspec + njax):
         jaxp = i >= nspec
-        spec, info = gen_spec.gen_spec(rng)
+        # every fourth specification: only bin-wise constraints — the Poisson-constrained (shapesys) block then precedes the
+        # Gaussian-constrained (staterror) one in the auxiliary data (the [normal, poisson] viewer then has to *reorder* consecutive runs)
+        spec, info = gen_spec.gen_spec(rng, want={'shapesys', 'staterror'}, avoid=set(gen_spec.SYS_POOL) | {'lumi'}) if i % 4 == 1 else gen_spec.gen_spec(rng)
         histo = rng.choice(['0', '2', '4p']); norm = rng.choice(['1', '4'])
         N = rng.randint(1, 8) if not jaxp else rng.randint(2, 3)
         pyhf.set_backend('numpy', precision='64b')
@@ -52,6 +54,8 @@ def run(ctx):
         if not res[0]['wf']['readsBelow'] or not res[0]['wf']['histoBlocksOK'] or not res[0]['wf']['constraintReadsBelow']:
             ctx.disagree('wf-hypothesis', {'spec': spec}, res[0]['wf'], True, 'hypothesis of C10_batched_expected_eq_rows / C10_batched_logpdf_eq_rows fails on a generated spec')
         ctx.tally('batch_size', N)
+        ptypes = [m1.config.param_set(n).pdf_type for n in m1.config.auxdata_order]
+        ctx.tally('aux_layout', 'none' if not ptypes else ('single-kind' if len(set(ptypes)) == 1 else ('normal-first' if ptypes == sorted(ptypes) else ('poisson-first' if ptypes == sorted(ptypes, reverse=True) else 'interleaved'))))
         bsel = [('numpy', '64b'), BACKENDS[1 + (i + ctx.seed) % 5]] if not jaxp else [('numpy', '64b'), ('jax', '64b')]
         if ctx.thorough and i % 10 == 0 and not jaxp: bsel = BACKENDS
         for (bk, prec) in bsel:
